@@ -100,12 +100,108 @@ theorem collectM_single {α β} (f : α → M (Option β)) (x : α) (r : Option 
   simp only [collectM, h, ok_bind, pure_eq_ok]
   cases r <;> rfl
 
-/-- ParsePage on a full-size page with a valid header is the per-pointer loop over the parsed pointers -/
+/-- ParsePage on a full-size page with a valid header is the guarded per-pointer loop over the parsed pointers,
+started with nothing claimed -/
 theorem parsePage_items (data : Bytes) (hd : 8192 ≤ data.length) (h : PageHeader) (hh : parseHeader data = .ok h)
     (hv : validHeader h = true) (items : List ItemID) (hi : parseItems data h.lower = .ok items) :
-    parsePage data = collectM (pageItem data h.upper) items := by
+    parsePage data = pageLoop data h.upper items [] := by
   unfold parsePage
   rw [if_neg (by omega), hh]
   simp only [ok_bind, hv, Bool.not_true, Bool.false_eq_true, if_false, hi]
+
+/-! ### the guarded loop (fix heap/02) on two pages / two lists of claimed storage -/
+
+/-- the guarded step gives the same result on two pages and two claimed lists when the unguarded step does and the
+pointer (if NORMAL and non-empty) overlaps the one claimed list exactly when it overlaps the other -/
+theorem pageItemG_congr {data data' : Bytes} (upper : Nat) (c c' : List ItemID) (it : ItemID)
+    (hitem : pageItem data' upper it = pageItem data upper it)
+    (hov : it.flags = 1 → it.length ≠ 0 → overlapsAny c' it = overlapsAny c it) :
+    pageItemG data' upper c' it = pageItemG data upper c it := by
+  by_cases hn : (it.flags != 1 || it.length == 0) = true
+  · rw [(pageItemG_not_normal data' upper c' it hn).1, (pageItemG_not_normal data upper c it hn).1]
+  · simp only [Bool.or_eq_true, bne_iff_ne, ne_eq, beq_iff_eq, not_or, Decidable.not_not] at hn
+    have ho := hov hn.1 hn.2
+    cases hc : overlapsAny c it with
+    | true =>
+      rw [hc] at ho
+      rw [pageItemG_of_overlaps _ _ _ _ ho, pageItemG_of_overlaps _ _ _ _ hc]
+    | false =>
+      rw [hc] at ho
+      rw [pageItemG_of_not_overlaps _ _ _ _ ho, pageItemG_of_not_overlaps _ _ _ _ hc, hitem]
+
+/-- the guarded loop gives the same result on two pages and two claimed lists when every pointer's unguarded step
+does and every NORMAL non-empty pointer overlaps the one claimed list exactly when it overlaps the other -/
+theorem pageLoop_congr {data data' : Bytes} (upper : Nat) :
+    ∀ (items c c' : List ItemID),
+      (∀ it ∈ items, pageItem data' upper it = pageItem data upper it) →
+      (∀ it ∈ items, it.flags = 1 → it.length ≠ 0 → overlapsAny c' it = overlapsAny c it) →
+      pageLoop data' upper items c' = pageLoop data upper items c
+  | [], _, _, _, _ => rfl
+  | it :: rest, c, c', hitem, hov => by
+    have hstep := pageItemG_congr upper c c' it (hitem it (by simp)) (hov it (by simp))
+    have hitem' : ∀ x ∈ rest, pageItem data' upper x = pageItem data upper x := fun x hx => hitem x (by simp [hx])
+    have hov' : ∀ x ∈ rest, x.flags = 1 → x.length ≠ 0 → overlapsAny c' x = overlapsAny c x :=
+      fun x hx => hov x (by simp [hx])
+    cases hx : pageItemG data upper c it with
+    | error e =>
+      rw [pageLoop_cons_error _ _ _ _ _ e hx, pageLoop_cons_error _ _ _ _ _ e (hstep.trans hx)]
+    | ok r =>
+      cases r with
+      | none =>
+        rw [pageLoop_cons_none _ _ _ _ _ hx, pageLoop_cons_none _ _ _ _ _ (hstep.trans hx)]
+        exact pageLoop_congr upper rest c c' hitem' hov'
+      | some t =>
+        rw [pageLoop_cons_some _ _ _ _ _ t hx, pageLoop_cons_some _ _ _ _ _ t (hstep.trans hx)]
+        rw [pageLoop_congr upper rest (c ++ [it]) (c' ++ [it]) hitem' (fun x hx h1 h2 => by
+          rw [overlapsAny_append, overlapsAny_append, hov' x hx h1 h2])]
+
+/-- the storage claimed after the loop has run over `items`, starting from `c` -/
+def claimedBy (data : Bytes) (upper : Nat) : List ItemID → List ItemID → List ItemID
+  | [], c => c
+  | it :: rest, c =>
+    match pageItemG data upper c it with
+    | .ok (some _) => claimedBy data upper rest (c ++ [it])
+    | _ => claimedBy data upper rest c
+
+theorem claimedBy_congr {data data' : Bytes} (upper : Nat) :
+    ∀ (items c : List ItemID), (∀ it ∈ items, pageItem data' upper it = pageItem data upper it) →
+      claimedBy data' upper items c = claimedBy data upper items c
+  | [], _, _ => rfl
+  | it :: rest, c, hitem => by
+    have hstep := pageItemG_congr upper c c it (hitem it (by simp)) (fun _ _ => rfl)
+    have hitem' : ∀ x ∈ rest, pageItem data' upper x = pageItem data upper x := fun x hx => hitem x (by simp [hx])
+    simp only [claimedBy, hstep]
+    split
+    · exact claimedBy_congr upper rest _ hitem'
+    · exact claimedBy_congr upper rest _ hitem'
+
+/-- the loop over `xs ++ ys`: the loop over `xs`, then the loop over `ys` with what `xs` claimed -/
+theorem pageLoop_append (data : Bytes) (upper : Nat) :
+    ∀ (xs ys c : List ItemID), pageLoop data upper (xs ++ ys) c =
+      (do let A ← pageLoop data upper xs c
+          let B ← pageLoop data upper ys (claimedBy data upper xs c)
+          pure (A ++ B))
+  | [], ys, c => by
+    simp only [List.nil_append, pageLoop_nil, ok_bind, claimedBy]
+    cases pageLoop data upper ys c <;> rfl
+  | it :: rest, ys, c => by
+    rw [List.cons_append]
+    cases hx : pageItemG data upper c it with
+    | error e =>
+      rw [pageLoop_cons_error _ _ _ _ _ e hx, pageLoop_cons_error _ _ _ _ _ e hx]; rfl
+    | ok r =>
+      cases r with
+      | none =>
+        rw [pageLoop_cons_none _ _ _ _ _ hx, pageLoop_cons_none _ _ _ _ _ hx, pageLoop_append data upper rest ys c]
+        simp only [claimedBy, hx]
+      | some t =>
+        rw [pageLoop_cons_some _ _ _ _ _ t hx, pageLoop_cons_some _ _ _ _ _ t hx,
+          pageLoop_append data upper rest ys (c ++ [it])]
+        simp only [claimedBy, hx]
+        cases pageLoop data upper rest (c ++ [it]) with
+        | error e => rfl
+        | ok A =>
+          simp only [ok_bind]
+          cases pageLoop data upper ys (claimedBy data upper rest (c ++ [it])) <;> rfl
 
 end PgVerif.Proofs.Isolation
